@@ -43,12 +43,13 @@ CT = {
     "def+copydel": "public: {K}(); {K}(const {K} &o) = delete;",
     "defprot+copyprot": "protected: {K}(); {K}(const {K} &o);",
     "def+move": "public: {K}(); {K}({K} &&o);",
+    "int+copydel": "public: {K}(int a); {K}(const {K} &o) = delete;",
 }
 CT_ORDER = list(CT)
 # which symbols declare a constructor at all / a copy constructor (in the C++ sense)
 CT_DECLARES_CTOR = {k for k in CT if k not in ("none", "moveas")}
 CT_DECLARES_COPY = {"copy", "copyprot", "copypriv", "copydel", "copydflt", "copyx", "copync",
-                    "def+copy", "dflt+dflt", "def+copydel", "defprot+copyprot"}
+                    "def+copy", "dflt+dflt", "def+copydel", "defprot+copyprot", "int+copydel"}
 
 DT = {
     "none": "",
